@@ -16,10 +16,13 @@ import CelmaVerif.Lemmas.InterleaveInventory
     `singletonOnlyThroughGroups`, `streamCells` the external objects justified by
     `standardStreamOnlyBound`;
   * which call reaches which of them is the regenerated call-site table `singletonCallers`
-    (every function of the reach that calls a member of `common::Singleton<T>`, with the fact
-    whether all such calls sit in a branch of an `if`): `Api.touchesSingleton` is the reading of
-    that table, `callersModelled` checks (by `decide`, in Props/C09.lean) that the table of the
-    tree under check contains nothing the reading does not cover.
+    (every function of the reach that calls a member of `common::Singleton<T>`; per call site the
+    conjunction of the conditions of the enclosing `if` statements, as normalised source text):
+    `Api.touchesSingleton` evaluates the guards of that table under the handler's flag
+    `mUsedByGroup` (an expression the model does not know may hold), `modelledCallers` is the
+    model's own reading (expected guard per caller), `callersModelled` checks (by `decide`, in
+    Props/C09.lean) that the table of the tree under check is covered by it — same callers, same
+    guards — and `plain_not_touches` / `threadProg_local` take that fact as a hypothesis.
 
   `Plain` is a decidable condition on the call list (plain handler, no usage / group / standard
   argument request).  `threadProg_local` PROVES the footprint condition for plain threads;
@@ -58,6 +61,10 @@ inductive Api where
   | addListArg (k : Nat)
   /-- `Handler::addBracketHandler` -/
   | addBracketHandler
+  /-- `addArgument( key, subGroupHandler, desc)`: the overload `Handler::addArgument( const string&,
+  Handler&, const string&)` for a sub-group argument (the sub-group handler is an object of the
+  thread); since /repo b870f06 it makes the same cross check as `internAddArgument` -/
+  | addSubGroupArg
   /-- one use `-k value` during `evalArguments` (tokenise and append, `assignFixed`) -/
   | evalUse (k j : Nat)
   /-- `Handler::usage()` (`-h`, `--help`, an error exit that prints the usage) -/
@@ -76,33 +83,87 @@ def Api.entry : Api → Option (String × String)
   | .construct .. => none
   | .addListArg _ => some ("library/prog_args/handler.cpp", "Handler::internAddArgument")
   | .addBracketHandler => some ("library/prog_args/handler.cpp", "Handler::addBracketHandler")
+  | .addSubGroupArg => some ("library/prog_args/handler.cpp", "Handler::addArgument")
   | .evalUse .. => none
   | .usage => some ("library/prog_args/handler.cpp", "Handler::usage")
   | .listArgGroups => some ("library/prog_args/handler.cpp", "Handler::listArgGroups")
   | .addStandardArgument => some ("celma/prog_args/add_standard_argument.hpp", "addStandardArgument")
   | .evalArgumentString => some ("library/prog_args/eval_argument_string.cpp", "evalArgumentString")
 
-/-- the callers this model knows: (file, function, all calls inside an `if` branch).  The two
-guarded ones test `mUsedByGroup` (handler.cpp, `if (mUsedByGroup) Groups::instance()…`). -/
-def modelledCallers : List (String × String × Bool) :=
-  [ ("library/prog_args/handler.cpp", "Handler::internAddArgument", true),
-    ("library/prog_args/handler.cpp", "Handler::addBracketHandler", true),
-    ("library/prog_args/handler.cpp", "Handler::usage", false),
-    ("library/prog_args/handler.cpp", "Handler::listArgGroups", false),
-    ("celma/prog_args/add_standard_argument.hpp", "addStandardArgument", false),
-    ("library/prog_args/eval_argument_string.cpp", "evalArgumentString", false) ]
+/-! ### which member flag makes a call reach the singleton
+
+`Handler::mUsedByGroup` is set from the constructor flag `hfInGroup` (both constructors'
+initialisers, handler.cpp) and never written afterwards; `Groups::internGetArgHandler` is the only
+code that passes that flag.  A guard is the conjunction of the conditions of the `if` statements
+around a call site, as the translator reads them from the tree under check. -/
+
+/-- the callers this model knows: (file, function, the guards of its call sites as the call-site
+table lists them: distinct, sorted, `[]` = a call outside every `if` branch).
+`internAddArgument`, `addBracketHandler` and the sub-group overload of `addArgument` call
+`Groups::instance().crossCheckArguments( this)` under `if (mUsedByGroup)`; `usage()` calls `Groups::instance().evaluatedByArgGroups()` *in* the
+condition of its first `if` (unguarded) and `Groups::instance().displayUsage()` under it; the
+other three call unconditionally. -/
+def modelledCallers : List (String × String × List (List String)) :=
+  [ ("library/prog_args/handler.cpp", "Handler::internAddArgument", [["mUsedByGroup"]]),
+    ("library/prog_args/handler.cpp", "Handler::addBracketHandler", [["mUsedByGroup"]]),
+    ("library/prog_args/handler.cpp", "Handler::addArgument", [["mUsedByGroup"]]),
+    ("library/prog_args/handler.cpp", "Handler::usage",
+      [[], ["Groups::instance().evaluatedByArgGroups()&&!mIsSubGroupHandler"]]),
+    ("library/prog_args/handler.cpp", "Handler::listArgGroups", [[]]),
+    ("celma/prog_args/add_standard_argument.hpp", "addStandardArgument", [[]]),
+    ("library/prog_args/eval_argument_string.cpp", "evalArgumentString", [[]]) ]
+
+/-- the guards of the call sites of `fn` (in `file`) in the tree under check; `[]` when the
+function calls no member of the singleton -/
+def foundGuards (file fn : String) : List (List String) :=
+  (singletonCallers.filter fun c => c.file == file && c.function == fn).flatMap (·.guards)
 
 /-- every caller of a singleton member found in the tree under check is one the model knows,
-with the same guardedness (a new call site, or a guard that disappeared, makes this false) -/
+**with the same guards** (a new call site, a guard that disappeared, or a guard that tests
+another expression makes this false) -/
 def callersModelled : Bool :=
-  singletonCallers.all fun c => modelledCallers.contains (c.file, c.function, c.guarded)
+  singletonCallers.all fun c => modelledCallers.contains (c.file, c.function, c.guards)
+
+/-- one condition under a handler whose `mUsedByGroup` is `g`; an expression the model does not
+know may hold -/
+def conjunctHolds (g : Bool) (s : String) : Bool :=
+  if s == "mUsedByGroup" then g
+  else if s == "!mUsedByGroup" || s == "!(mUsedByGroup)" then !g
+  else true
+
+/-- can a call behind these guards be reached on a handler whose `mUsedByGroup` is `g`?
+(one site whose conjuncts may all hold) -/
+def reaches (g : Bool) (guards : List (List String)) : Bool :=
+  guards.any fun conj => conj.all (conjunctHolds g)
 
 /-- does this call, made on a handler whose `mUsedByGroup` is `inGroup`, reach a member of
-`Singleton<Groups>`?  Read from `modelledCallers`: a guarded caller only when the flag is set. -/
+`Singleton<Groups>`?  Read from the call-site table **of the tree under check**. -/
 def Api.touchesSingleton (inGroup : Bool) (a : Api) : Bool :=
   match a.entry with
   | none => false
-  | some (f, g) => modelledCallers.any fun c => c.1 == f && c.2.1 == g && (inGroup || !c.2.2)
+  | some (f, g) => singletonCallers.any fun c => c.file == f && c.function == g && reaches inGroup c.guards
+
+/-- the same question answered from the model's own reading `modelledCallers` -/
+def Api.touchesModel (inGroup : Bool) (a : Api) : Bool :=
+  match a.entry with
+  | none => false
+  | some (f, g) => modelledCallers.any fun c => c.1 == f && c.2.1 == g && reaches inGroup c.2.2
+
+/-- when the table of the tree is covered by the model's reading, a call reaches the singleton in
+the tree only if it does in the model -/
+theorem touches_le_model (hm : callersModelled = true) (g : Bool) (a : Api)
+    (h : a.touchesSingleton g = true) : a.touchesModel g = true := by
+  unfold Api.touchesSingleton at h
+  unfold Api.touchesModel
+  cases he : a.entry with
+  | none => rw [he] at h; cases h
+  | some fg =>
+    obtain ⟨f, fn⟩ := fg
+    rw [he] at h
+    simp only [List.any_eq_true] at h ⊢
+    obtain ⟨c, hc, hcc⟩ := h
+    have hin := List.all_eq_true.mp hm c hc
+    exact ⟨(c.file, c.function, c.guards), List.contains_iff_mem.mp hin, hcc⟩
 
 /-- does this call write to the handler's output streams? -/
 def Api.prints : Api → Bool
@@ -120,6 +181,7 @@ def Api.steps (t : Nat) (inGroup stdStreams : Bool) (a : Api) :
     | .construct .. => [touch [.tmp t]]
     | .addListArg k => [touch [.tmp t, .sepv t k]]
     | .addBracketHandler => [touch [.tmp t]]
+    | .addSubGroupArg => [touch [.tmp t]]
     | .evalUse k j => touch [.tmp t] :: assignFixed t k j
     | _ => [touch [.tmp t]])
   ++ (if a.touchesSingleton inGroup then [touch singletonCells] else [])
@@ -147,8 +209,21 @@ def Plain (calls : List Api) : Bool := calls.all Api.plain
 
 /-! ### plain threads are local (proved) -/
 
-theorem plain_not_touches (a : Api) (h : a.plain = true) : a.touchesSingleton false = false := by
+/-- in the model's reading a plain call on a handler with `mUsedByGroup = false` reaches nothing:
+the two callers a plain thread enters are guarded by exactly that flag -/
+theorem plain_not_touchesModel (a : Api) (h : a.plain = true) : a.touchesModel false = false := by
   cases a <;> first | rfl | (simp [Api.plain] at h) | decide
+
+/-- … hence not in the tree under check either, **provided its call-site table is the modelled
+one** (`hm` = `C09_singleton_callers_modelled`) -/
+theorem plain_not_touches (hm : callersModelled = true) (a : Api) (h : a.plain = true) :
+    a.touchesSingleton false = false := by
+  cases ht : a.touchesSingleton false with
+  | false => rfl
+  | true =>
+    have h2 := touches_le_model hm false a ht
+    rw [plain_not_touchesModel a h] at h2
+    cases h2
 
 theorem plain_not_prints (a : Api) (h : a.plain = true) : a.prints = false := by
   cases a <;> first | rfl | (simp [Api.plain] at h)
@@ -187,11 +262,11 @@ theorem ownStep_assignFixed {n : Nat} (i : Fin n) (k j : Nat) : ∀ s ∈ assign
   exact h
 
 /-- the steps of a plain call on a plain handler touch only cells of the thread -/
-theorem steps_own {n : Nat} (i : Fin n) (s : Bool) (a : Api) (h : a.plain = true) :
+theorem steps_own (hm : callersModelled = true) {n : Nat} (i : Fin n) (s : Bool) (a : Api) (h : a.plain = true) :
     ∀ st ∈ a.steps i.val false s, OwnStep i st := by
   intro st hst
   unfold Api.steps at hst
-  rw [plain_not_touches a h, plain_not_prints a h] at hst
+  rw [plain_not_touches hm a h, plain_not_prints a h] at hst
   simp only [Bool.false_and, Bool.false_eq_true, if_false, List.append_nil] at hst
   cases a with
   | construct g s' =>
@@ -206,6 +281,10 @@ theorem steps_own {n : Nat} (i : Fin n) (s : Bool) (a : Api) (h : a.plain = true
     rcases hst with _ | ⟨_, hst⟩
     · exact ownStep_touch i _ (own_tmp i)
     · cases hst
+  | addSubGroupArg =>
+    rcases hst with _ | ⟨_, hst⟩
+    · exact ownStep_touch i _ (own_tmp i)
+    · cases hst
   | evalUse k j =>
     rcases hst with _ | ⟨_, hst⟩
     · exact ownStep_touch i _ (own_tmp i)
@@ -215,7 +294,7 @@ theorem steps_own {n : Nat} (i : Fin n) (s : Bool) (a : Api) (h : a.plain = true
   | addStandardArgument => simp [Api.plain] at h
   | evalArgumentString => simp [Api.plain] at h
 
-theorem apiSteps_own {n : Nat} (i : Fin n) (calls : List Api) :
+theorem apiSteps_own (hm : callersModelled = true) {n : Nat} (i : Fin n) (calls : List Api) :
     ∀ s, Plain calls = true → ∀ st ∈ apiSteps i.val false s calls, OwnStep i st := by
   induction calls with
   | nil => intro s _ st hst; cases hst
@@ -229,22 +308,27 @@ theorem apiSteps_own {n : Nat} (i : Fin n) (calls : List Api) :
       subst hg
       unfold apiSteps at hst
       rcases List.mem_append.mp hst with h1 | h2
-      · exact steps_own i s' _ hp'.1 st h1
+      · exact steps_own hm i s' _ hp'.1 st h1
       · exact ih s' hp'.2 st h2
     | addListArg k =>
       unfold apiSteps at hst
       rcases List.mem_append.mp hst with h1 | h2
-      · exact steps_own i s _ hp'.1 st h1
+      · exact steps_own hm i s _ hp'.1 st h1
       · exact ih s hp'.2 st h2
     | addBracketHandler =>
       unfold apiSteps at hst
       rcases List.mem_append.mp hst with h1 | h2
-      · exact steps_own i s _ hp'.1 st h1
+      · exact steps_own hm i s _ hp'.1 st h1
+      · exact ih s hp'.2 st h2
+    | addSubGroupArg =>
+      unfold apiSteps at hst
+      rcases List.mem_append.mp hst with h1 | h2
+      · exact steps_own hm i s _ hp'.1 st h1
       · exact ih s hp'.2 st h2
     | evalUse k j =>
       unfold apiSteps at hst
       rcases List.mem_append.mp hst with h1 | h2
-      · exact steps_own i s _ hp'.1 st h1
+      · exact steps_own hm i s _ hp'.1 st h1
       · exact ih s hp'.2 st h2
     | usage => simp [Api.plain] at hp'
     | listArgGroups => simp [Api.plain] at hp'
@@ -253,9 +337,9 @@ theorem apiSteps_own {n : Nat} (i : Fin n) (calls : List Api) :
 
 /-- **the footprint condition, proved**: the thread program derived from a plain call list reads
 and writes only cells of its own thread -/
-theorem threadProg_local {n : Nat} (i : Fin n) (calls : List Api) (h : Plain calls = true) :
-    (threadProg i.val calls).Local (handlerOwner n) i :=
-  ofList_local _ i _ (apiSteps_own i calls false h)
+theorem threadProg_local (hm : callersModelled = true) {n : Nat} (i : Fin n) (calls : List Api)
+    (h : Plain calls = true) : (threadProg i.val calls).Local (handlerOwner n) i :=
+  ofList_local _ i _ (apiSteps_own hm i calls false h)
 
 /-! ### … and only they: a call that reaches the singleton breaks the condition -/
 
@@ -278,22 +362,6 @@ theorem local_no_static {n : Nat} (i : Fin n) (p : Prog HCell HVal) (hl : p.Loca
   have h := (footprint_of_local (handlerOwner n) i p hl _ _ hf).1 rfl
   simp [handlerOwner] at h
 
-theorem touches_mono (a : Api) (g : Bool) (h : a.touchesSingleton false = true) : a.touchesSingleton g = true := by
-  cases g with
-  | false => exact h
-  | true =>
-    unfold Api.touchesSingleton at h ⊢
-    cases he : a.entry with
-    | none => rw [he] at h; cases h
-    | some fg =>
-      obtain ⟨f, fn⟩ := fg
-      rw [he] at h
-      simp only [List.any_eq_true] at h ⊢
-      obtain ⟨c, hc, hcc⟩ := h
-      refine ⟨c, hc, ?_⟩
-      simp only [Bool.and_eq_true, Bool.or_eq_true, Bool.false_eq_true, false_or, Bool.true_or, and_true] at hcc ⊢
-      exact hcc.1
-
 /-- the steps of every call of the list occur in the step list, under some flags -/
 theorem mem_apiSteps (t : Nat) (a : Api) (calls : List Api) : ∀ g s, a ∈ calls →
     ∃ g' s', ∀ st ∈ a.steps t g' s', st ∈ apiSteps t g s calls := by
@@ -308,6 +376,7 @@ theorem mem_apiSteps (t : Nat) (a : Api) (calls : List Api) : ∀ g s, a ∈ cal
         exact ⟨g', s', fun st hst => by unfold apiSteps; exact List.mem_append_left _ hst⟩
       | addListArg k => exact ⟨g, s, fun st hst => by unfold apiSteps; exact List.mem_append_left _ hst⟩
       | addBracketHandler => exact ⟨g, s, fun st hst => by unfold apiSteps; exact List.mem_append_left _ hst⟩
+      | addSubGroupArg => exact ⟨g, s, fun st hst => by unfold apiSteps; exact List.mem_append_left _ hst⟩
       | evalUse k j => exact ⟨g, s, fun st hst => by unfold apiSteps; exact List.mem_append_left _ hst⟩
       | usage => exact ⟨g, s, fun st hst => by unfold apiSteps; exact List.mem_append_left _ hst⟩
       | listArgGroups => exact ⟨g, s, fun st hst => by unfold apiSteps; exact List.mem_append_left _ hst⟩
@@ -321,6 +390,9 @@ theorem mem_apiSteps (t : Nat) (a : Api) (calls : List Api) : ∀ g s, a ∈ cal
         obtain ⟨g2, s2, h2⟩ := ih g s hr
         exact ⟨g2, s2, fun st hst => by unfold apiSteps; exact List.mem_append_right _ (h2 st hst)⟩
       | addBracketHandler =>
+        obtain ⟨g2, s2, h2⟩ := ih g s hr
+        exact ⟨g2, s2, fun st hst => by unfold apiSteps; exact List.mem_append_right _ (h2 st hst)⟩
+      | addSubGroupArg =>
         obtain ⟨g2, s2, h2⟩ := ih g s hr
         exact ⟨g2, s2, fun st hst => by unfold apiSteps; exact List.mem_append_right _ (h2 st hst)⟩
       | evalUse k j =>
@@ -339,23 +411,23 @@ theorem mem_apiSteps (t : Nat) (a : Api) (calls : List Api) : ∀ g s, a ∈ cal
         obtain ⟨g2, s2, h2⟩ := ih g s hr
         exact ⟨g2, s2, fun st hst => by unfold apiSteps; exact List.mem_append_right _ (h2 st hst)⟩
 
-/-- a call that reaches the group singleton whatever the handler's flags (usage, list of groups,
-standard arguments, argument string without handler) puts every singleton cell of the inventory
-into the thread's write footprint -/
+/-- a call that reaches the group singleton whatever the handler's flag (usage, list of groups,
+standard arguments, argument string without handler: a call site outside every `if`) puts every
+singleton cell of the inventory into the thread's write footprint -/
 theorem threadProg_reaches (t : Nat) (calls : List Api) (a : Api) (ha : a ∈ calls)
-    (hu : a.touchesSingleton false = true) :
+    (hu : ∀ g, a.touchesSingleton g = true) :
     ∀ c ∈ singletonCells, (threadProg t calls).Footprint c true := by
   intro c hc
   obtain ⟨g, s, h⟩ := mem_apiSteps t a calls false false ha
   apply ofList_footprint _ (touch singletonCells) (h _ _) c hc
   unfold Api.steps
-  rw [touches_mono a g hu, if_pos rfl]
+  rw [hu g, if_pos rfl]
   exact List.mem_append_left _ (List.mem_append_right _ List.mem_cons_self)
 
 /-- … hence such a thread does **not** satisfy the footprint condition (as long as the inventory
 lists a singleton member at all) -/
 theorem threadProg_not_local {n : Nat} (i : Fin n) (calls : List Api) (a : Api) (ha : a ∈ calls)
-    (hu : a.touchesSingleton false = true) (hne : singletonCells ≠ []) :
+    (hu : ∀ g, a.touchesSingleton g = true) (hne : singletonCells ≠ []) :
     ¬ (threadProg i.val calls).Local (handlerOwner n) i := by
   intro hl
   cases hsc : singletonCells with
